@@ -17,8 +17,12 @@ const BAD_LINES: [&str; 10] = [
     "cmd \"a\\", "cmd \\$x",
 ];
 
+/// the lexical pieces an argument is made of (escape sequences, variable references, plain
+/// characters): sequences of them exercise the parser's escape state across one argument
+pub const PIECES: [&str; 16] = ["\\${", "\\$", "\\\"", "\\\\", "\\n", "\\t", "\\r", "${", "%{", "}", "a", "\"", " ", "#", "$", "\\"];
+
 pub fn gen_text(rng: &mut Rng) -> (String, Vec<&'static str>) {
-    let mode = rng.below(5);
+    let mode = rng.below(6);
     let mut tags = vec![];
     let mut s = String::new();
     match mode {
@@ -39,6 +43,30 @@ pub fn gen_text(rng: &mut Rng) -> (String, Vec<&'static str>) {
                 if i + 1 < n || rng.chance(1, 2) {
                     s.push_str(if rng.chance(1, 3) { "\r\n" } else { "\n" });
                 }
+            }
+        }
+        5 => {
+            tags.push("escape-mix");
+            // 1-3 lines `[x = ]cmd <arg>*`, every argument a sequence of lexical pieces, bare or quoted
+            for _ in 0..(1 + rng.below(3)) {
+                if rng.chance(1, 4) {
+                    s.push_str("x = ");
+                }
+                s.push_str("cmd");
+                for _ in 0..(1 + rng.below(3)) {
+                    s.push(' ');
+                    let quoted = rng.chance(1, 3);
+                    if quoted {
+                        s.push('"');
+                    }
+                    for _ in 0..(1 + rng.below(5)) {
+                        s.push_str(*rng.pick(&PIECES));
+                    }
+                    if quoted && rng.chance(5, 6) {
+                        s.push('"');
+                    }
+                }
+                s.push('\n');
             }
         }
         3 => {
@@ -103,6 +131,26 @@ impl Prop for C08Prop {
                 }
             }
             cur = next;
+        }
+        // every argument made of <= 3 lexical pieces, bare and quoted (escape state carried from
+        // one escape sequence to the next inside one argument)
+        let mut seqs: Vec<String> = vec![String::new()];
+        let mut all: Vec<String> = vec![];
+        for _ in 0..3 {
+            let mut next = vec![];
+            for t in &seqs {
+                for p in PIECES {
+                    let n = format!("{}{}", t, p);
+                    all.push(n.clone());
+                    next.push(n);
+                }
+            }
+            seqs = next;
+        }
+        for a in &all {
+            for l in [format!("cmd {}", a), format!("cmd \"{}\"", a)] {
+                out.push(Case { req: format!("parse {}", enc_str(&l)), in_domain: true, nontrivial: true, tags: vec!["exhaustive-pieces"] });
+            }
         }
         for l in GOOD_LINES.iter().chain(BAD_LINES.iter()) {
             out.push(Case { req: format!("parse {}", enc_str(l)), in_domain: true, nontrivial: true, tags: vec!["seed-line"] });
